@@ -331,6 +331,13 @@ MUTANTS += [
     ("c11-abstract-accessor", ["C11"], [(QR, "    def weight_inverse(self):", "    def _weight_inverse_unused(self):")], "LIN-COMPLETE"),
 ]
 
+MUTANTS += [
+    ("c16-inplace-exp-result", ["C16"], [(NL, "        outputs = torch.exp(inputs)\n        logabsdet = torchutils.sum_except_batch(inputs, num_batch_dims=1)", "        outputs = torch.exp(inputs)\n        logabsdet = torchutils.sum_except_batch(torch.log(outputs), num_batch_dims=1)\n        outputs += 0.0")], "GRAD-INPLACE"),
+    ("c16-inplace-sigmoid-result", ["C16"], [(CPL, "        scale = self.scale_activation(unconstrained_scale)\n        return scale, shift", "        scale = torch.sigmoid(unconstrained_scale + 2)\n        scale += 1e-3\n        return scale, shift")], "GRAD-INPLACE"),
+    ("c16-inplace-sqrt-result", ["C16"], [(NORM, "        outputs = (\n            self.weight * ((inputs - mean) / torch.sqrt((var + self.eps))) + self.bias\n        )\n", "        std = torch.sqrt(var + self.eps)\n        outputs = self.weight * ((inputs - mean) / std) + self.bias\n        std *= 1.0\n")], "GRAD-INPLACE"),
+    ("c16-inplace-mul-operand", ["C16"], [(AR, "        outputs = scale * inputs + shift\n        logabsdet = torchutils.sum_except_batch(log_scale, num_batch_dims=1)", "        outputs = scale * inputs + shift\n        scale -= self._epsilon\n        logabsdet = torchutils.sum_except_batch(log_scale, num_batch_dims=1)")], "GRAD-INPLACE"),
+]
+
 BENIGN = [
     ("b-c06-rename-local", ["C06"], [(MADE1, "        prev_out_degrees = self.initial_layer.degrees\n        for _ in range(num_blocks):", "        prev_out_degrees = self.initial_layer.degrees\n        for _blk in range(num_blocks):")]),
     ("b-c06-guard-form", ["C06"], [(MADE1, "if torch.all(self.degrees >= in_degrees).item() != 1:", "if not torch.all(in_degrees <= self.degrees):")]),
@@ -375,5 +382,6 @@ BENIGN = [
     ("b-c02-neg-spelling", ["C02"], [(CPL, "        logabsdet = -torchutils.sum_except_batch(log_scale, num_batch_dims=1)", "        logabsdet = 0 - torchutils.sum_except_batch(log_scale, num_batch_dims=1)")]),
     ("b-c02-neg-inside", ["C02"], [(NL, "        logabsdet = -self.log_negative_slope * mask", "        logabsdet = self.log_negative_slope * (-mask)")]),
     ("b-c11-flip", ["C11"], [(ORT, "        reverse_idx = torch.arange(self.num_transforms - 1, -1, -1)\n        return self._apply_transforms(inputs, self.q_vectors[reverse_idx])", "        return self._apply_transforms(inputs, self.q_vectors.flip(0))")]),
+    ("b-c16-inplace-fresh-sum", ["C16", "C13"], [(AR, "        outputs = scale * inputs + shift\n        logabsdet = torchutils.sum_except_batch(log_scale, num_batch_dims=1)", "        outputs = scale * inputs\n        outputs += shift\n        logabsdet = torchutils.sum_except_batch(log_scale, num_batch_dims=1)")]),
     ("b-c14-guard-order", ["C14"], [(NORM, "if self.training and not self.initialized:", "if not self.initialized and self.training:")]),
 ]
